@@ -95,6 +95,13 @@ CLAIMED["C03"] = dict(
     design_ref="§5 C03, §4.3",
 )
 
+CLAIMED["C05"] = dict(
+    category="exploration",
+    technique="bounded-exhaustive enumeration of all hydrocarbon record pairs x (T, x, pressure fraction) lattice x {bubble, dew at T and p, flash, diagrams}; equilibrium conditions recomputed outside the solvers",
+    text="All unordered pairs of the 51 shipped PC-SAFT hydrocarbon records with T_c ratio < 1.8 are solved on the (T, x) lattice for bubble and dew points at given T and p and for flashes strictly inside the envelope (success clause for ratio < 1.5), plus binary_vle / bubble- and dew-point lines, other model families, a ternary, LLE and the heteroazeotrope; for every returned result common T and p, equality of x_i phi_i, distinctness of the phases, exact echo of the specification, p_bub >= p_dew and the material balance are recomputed. Flash failures on the pinned tree are listed per (pair, T, x, pressure fraction).",
+    design_ref="§5 C05",
+)
+
 NOT_YET = "check not built yet (work in progress; see DESIGN.md §9 build order) - not a claim that the technique cannot apply"
 
 ALL = ["C%02d" % i for i in range(1, 21)]
